@@ -548,9 +548,12 @@ class Engine:
         g = simp(goal)
         ob = Obligation(name, self.state.pc, g, clause, kind, self.cur_func, self.path_id, dict(self.vars))
         self.obligations.append(ob)
-        # continue under the assumption that it holds (avoid cascades)
+        # continue under the assumption that it holds (avoid cascades) -- unless the goal is inconsistent with the path
+        # condition (the obligation fails on EVERY state of this path): assuming it would silently kill the path and
+        # hide everything after it behind a contradictory path condition
         if not z3.is_true(g) and not z3.is_false(g):
-            self.state.pc.append(g)
+            if not getattr(self, "check_goal_consistency", False) or smt.feasible(self.state.pc + [g], self.feas_timeout_ms):
+                self.state.pc.append(g)
         # a literally-false goal is reported; execution continues without assuming it
 
     def emit(self, kind, **payload):
